@@ -505,14 +505,14 @@ def c01(ctx: Ctx) -> None:
     ctx.trusted += ['CPython dict get/set atomicity', 'threading.Lock semantics',
                     'the 10-line hand argument of DESIGN 4.A (premises are what is checked here)',
                     'the supplied mapping retains entries']
-    ctx.rule('C01-R1', 'every access to the in-flight table happens with the creation lock held', 3)
+    ctx.rule('C01-R1', 'every access to the in-flight table happens with the creation lock held', 1)
     ctx.rule('C01-R2', 'every path lock-enter -> MARK passes a locked cache PROBE (double-check)', 1)
     ctx.rule('C01-R3', 'every path lock-enter -> MARK passes a LOOKUP of the table', 1)
     ctx.rule('C01-R4', 'take-over of an existing marker only when its loop is closed or not running', 1)
     ctx.rule('C01-R5', 'the wrapped function is awaited only after MARK by this invocation; no other call site', 1)
     ctx.rule('C01-R6', 'every path from normal completion of CALL to UNMARK passes PUBLISH', 1)
     ctx.rule('C01-R7', 'if a take-over path exists, every UNMARK is governed by an ownership test', 1)
-    ctx.rule('C01-R8', 'every return yields a cache PROBE value or the value bound from CALL', 3)
+    ctx.rule('C01-R8', 'every return yields a cache PROBE value or the value bound from CALL', 1)
     if not _require_table(ctx, r, 'C01-R1'):
         _publish_roles(ctx, r)
         return
@@ -661,6 +661,12 @@ def c01(ctx: Ctx) -> None:
                 c.ast is n.meta['value'] for c in r.CALL):
             result_names.add(n.meta['name'])
     for n in g.nodes:
+        if n.kind == 'implicit_return' and find_path(g, [g.entry], [n]) is not None:
+            w_ = find_path(g, [g.entry], [n])
+            ctx.violation('C01-R8', 'the wrapper can fall off its end (returns None)', _loc(g, n),
+                          'a caller receives None instead of the cached / computed value', witness=render(g, w_),
+                          construct=construct_key(r.wrapper.qualname, 'implicit return'))
+    for n in g.nodes:
         if n.kind != 'return':
             continue
         v = n.ast.value  # type: ignore[union-attr]
@@ -775,7 +781,7 @@ def c05(ctx: Ctx) -> None:
     ctx.rule('C05-R1', 'every path MARK -> any exit (return, exception, cancellation) passes WAKE and an UNMARK '
                        '(or the failing edge of an ownership test)', 2)
     ctx.rule('C05-R3', 'a waiter on a foreign loop awaits wrap_future(run_coroutine_threadsafe(event.wait(), marker_loop)); '
-                       'on the same loop event.wait() itself', 2)
+                       'on the same loop event.wait() itself',1)
     ctx.rule('C05-R4', 'RuntimeError of the cross-loop bridge leads back to the retry head', 1)
     ctx.rule('C05-R5', 'the wait is wrapped in wait_for(_, T), 0 < T <= 60; its TimeoutError leads to the retry head', 1)
     ctx.rule('C05-R6', 'no path through the wait stage returns without passing the retry head', 1)
@@ -851,9 +857,10 @@ def c05(ctx: Ctx) -> None:
             continue
         seen_inst.add(key)
         if foreign is None:
-            ctx.undecided('C05-R3', f'await {norm(expr)}', _loc(g, w), 'no loop-identity test on the path')
-            continue
-        ok = (foreign and bridged) or (not foreign and not bridged)
+            # no test of the loops' identity on this path: the marker may belong to another loop, so only the
+            # bridged form is right (it also works on the same loop)
+            foreign = True
+        ok = bridged or not foreign
         ctx.check('C05-R3', f'{"foreign" if foreign else "same"}-loop waiter awaits {norm(expr)}', _loc(g, w), ok,
                   detail_ok='event waited on its own loop',
                   detail_bad=('an asyncio.Event is awaited on a loop that does not own it' if foreign else
@@ -982,7 +989,7 @@ def c06(ctx: Ctx) -> None:
     ctx.rule('C06-R2', 'every exception edge of CALL leaves the wrapper by raising; the marker event carries no payload', 2)
     ctx.rule('C06-R3', 'owner-only UNMARK (= C01-R7): no bookkeeping KeyError, no foreign marker removed', 1)
     ctx.rule('C06-R4', 'a CancelledError caught around the shielded wait is re-raised only if the local waiter task is not done', 1)
-    ctx.rule('C06-R5', 'cancel() only on the locally created waiter task; shield() wraps that task; the shared event is never cleared', 2)
+    ctx.rule('C06-R5', 'cancel() only on the locally created waiter task; shield() wraps that task; the shared event is never cleared', 1)
     ctx.rule('C06-R6', 'a RuntimeError of the cross-loop bridge (computing loop closed) leads back to the retry head, never to the caller', 1)
     ctx.rule('C06-R7', 'every exception/cancel edge of the wrapped call passes the wake-up of the waiters', 1)
     if not _require_table(ctx, r, 'C06-R1'):
